@@ -127,8 +127,8 @@ REALLOC_NOTE = "content preservation across realloc is proved for one arbitrary 
 
 _p('C05', 'proof', 'DESIGN.md 5/C05',
    [HIST_ASSUME, FENCE_ASSUME, SIZE_ASSUME, LIBC_ASSUME,
-    "per-operation contracts cover: unique alloc/reset; shared alloc (into empty), reset, share (into empty / from empty), unique, get; weak from (into empty), lock (into empty / from empty), reset. Re-targeting an occupied pointer is reset followed by the empty-target case (both under contract; the composition is the first statement of the function). swap is a pointer exchange (guarded_ptr_swap) and is covered under C20/closed scenario only",
-    "the case 'both pointers already own the same allocation' (share/lock onto a co-owner) is covered only by the closed scenario group, not by a symbolic-counter contract"])
+    "per-operation contracts cover: unique alloc/reset; shared alloc (into empty), reset, share (into empty / from empty), unique, get; weak from (into empty), lock (into empty / from empty), reset. Re-targeting an occupied pointer is reset followed by the empty-target case (both under contract; the composition is the first statement of the function). shared / weak / unique swap (also with itself) and unique release are under contract: the frame is the two objects, so no counter moves and nothing is destroyed",
+    "the case 'both pointers already own the same allocation' (share/lock onto a co-owner) is decided on explicit objects with symbolic counters (group memory.same_block), not through an is_fresh contract (DFCC cannot alias two fresh parameters)"])
 _p('C09', 'proof', 'DESIGN.md 5/C09',
    [HIST_ASSUME, LIBC_ASSUME, REALLOC_NOTE, SIZE_ASSUME,
     "element size is a constant per instance: {1,4,12} in the quick tier, {1,2,3,4,8,12,16,64} in the thorough tier; buffers below 2^40 bytes (DFCC allocation limit)",
@@ -154,18 +154,20 @@ NORM = NORMALISE_TRUST
 _p('C01', 'model_checking', 'DESIGN.md 5/C01',
    [BOUNDED_ASSUME, CALLBACK_ASSUME, HIST_ASSUME,
     "scope: every insertion sequence (hinted and unhinted alternating) of length <= 3 (thorough: <= 4) over keys {0,1,2} -- all BST shapes reachable that way, duplicates included -- each followed by find of every key, erase of every key (twice) and re-insert; plus 8-key trees in 2 (thorough: 4) insertion orders x 3 (8) erase orders; traversal and clear on the same trees",
-    "no unbounded (P/S) obligation decides this property: CBMC has no inductive heap predicates; step contracts for rotate / __cstl_bintree_erase planned in DESIGN.md were not built"],
+    "step contract (unbounded in the rest of the tree): __cstl_bintree_rotate on all 48 neighbourhood shapes; no step contract for __cstl_bintree_erase and no inductive argument for the descent loops: CBMC has no inductive heap predicates, whole operations are bounded only",
+    STEP_ASSUME],
    [NORM])
 _p('C02', 'model_checking', 'DESIGN.md 5/C02',
    [BOUNDED_ASSUME, CALLBACK_ASSUME, HIST_ASSUME,
     "scope: as C01 on the red-black tree; after every insert and erase: root black, no red-red, equal black count on every root-to-NULL path, parent back-links, cstl_rbtree_height == longest path <= 2*log2(n+1)",
-    "the step contracts for cstl_rbtree_fix_insertion / fix_deletion planned in DESIGN.md were not built; the loop-level argument is checked only inside the bounded scope"],
+    "step contracts (unbounded in the rest of the tree, sentinel objects stand for it): cstl_rbtree_fix_insertion (72 neighbourhood shapes), cstl_rbtree_fix_deletion (216 shapes), __cstl_bintree_rotate (48 shapes); the loops in cstl_rbtree_insert / __cstl_rbtree_erase that iterate the steps and the colour transfer at the head of __cstl_rbtree_erase are checked only inside the bounded scope",
+    STEP_ASSUME],
    [NORM])
 _p('C11', 'model_checking', 'DESIGN.md 5/C11',
    [BOUNDED_ASSUME, CALLBACK_ASSUME,
     "proved (unbounded, every count): linear find returns the first match / -1 (element sizes 1 and 4), reverse mirrors exactly (element size 1), binary search index arithmetic stays inside the array for arbitrary comparison outcomes; cstl_swap fast paths are executed inside these proofs",
     "bounded: all five sort selectors on every array of length <= 3 (thorough: <= 4) over a 3-letter alphabet, element sizes 1, 4, 12 (12: length <= 2 / 3); QUICK_R with every first pivot and two second pivots, later draws 0; termination of QUICK_R for adversarial rand() is not claimed",
-    "functional correctness of binary search on sorted arrays is bounded (same arrays): quantified sortedness is beyond the installed solvers (DESIGN.md section 2)"],
+    "binary search is also proved functionally for every count: sortedness is seen from the probe as zone boundaries lo <= hi (the probe is greater than every element below lo, equal to those in [lo,hi), smaller than those from hi on -- what a sorted array and a consistent total preorder give for every probe); the result lies in [lo,hi) iff lo < hi, else -1. (Quantified sortedness itself is beyond the installed solvers, DESIGN.md section 2.)"],
    [NORM])
 _p('C12', 'model_checking', 'DESIGN.md 5/C12',
    [BOUNDED_ASSUME, STEP_ASSUME, CALLBACK_ASSUME, HIST_ASSUME,
@@ -197,6 +199,7 @@ _p('C04', 'model_checking', 'DESIGN.md 5/C04',
    [NORM])
 _p('C08', 'model_checking', 'DESIGN.md 5/C08',
    [BOUNDED_ASSUME, CALLBACK_ASSUME, HIST_ASSUME,
+    "proved (unbounded in the map's size, every key, every stored pointer): cstl_map_insert / find / erase / erase_iterator / init and the element comparison cstl_map_node_cmp against per-key contracts of the tree functions they call (cstl_bintree_find, cstl_rbtree_insert as specification stubs, __cstl_rbtree_erase as a replaced contract). Those tree contracts restate C01 (find returns the held element comparing equal or NULL; insert links exactly the element given; erase unlinks exactly the node given) and are ASSUMED in these proofs; the tree code itself is checked against C01/C02 by step contracts and bounded groups only. cstl_map_clear is bounded only",
     "scope: every script with <= 3 (thorough: 4) state-changing operations over {insert K[i], insert through a second key pointer K2[i], erase by key, erase by iterator, find} on keys 0..2, any number of non-changing operations interleaved (their no-op-ness is checked bit for bit); clear (with and without callback) on maps from every insertion sequence of <= 4 keys; drain in all 24 erase orders; allocation failure at every insert (scripted allocator)",
     "map nodes come from a static arena (or real malloc with --memory-leak-check in the clear groups); red-black and ordering invariants of the underlying tree are re-checked after every operation"],
    [NORM])
@@ -215,7 +218,9 @@ _p('C10', 'model_checking', 'DESIGN.md 5/C10',
    [BOUNDED_ASSUME, LIBC_ASSUME, REALLOC_NOTE, SIZE_ASSUME, HIST_ASSUME,
     "proved (unbounded, both character widths, empty string / string with storage; vector.c inlined down to realloc): substr_prep (abort iff pos >= size, count truncated for every count), __resize (n characters + NUL or abort, prefix kept), prep_insert (abort iff pos > size; size + len or abort; prefix kept, suffix shifted; memmove ranges inside the storage), erase (prefix kept, suffix shifted down, terminated), at, str; memcpy/memmove are contract models",
     "bounded: reference-string comparison after every edit of every scenario over base words \"\", \"a\", \"ab\" (thorough: + \"bab\") x inserted words x every position: set, insert (string / C string / repeated char), append, substr and erase with counts 0,1,2,SIZE_MAX-1,SIZE_MAX, resize down/up, swap, clear; find_ch/find_str/compare against reference implementations of the C library functions",
-    "insert_ch / insert_str_n / substr / find_* have no unbounded top-level contract of their own (their callees substr_prep, __resize, prep_insert do); they are covered by the bounded group"],
+    "proved on top of those: insert_str_n, insert_ch, resize (public), insert (header wrapper) with prep_insert / __resize / insert_str_n replaced by their proved contracts and the fill / padding loops closed by loop contracts; in replaced position 'the same block or a new block' is abstracted to 'a new block carrying the same ghost-index facts' (weaker knowledge of the contents; sound for callers that hold no other pointer into the old block: sources must not alias the string, as documented); thorough tier: insert_str_n with every callee inlined down to realloc (no assumed contract at all); substr with everything inlined",
+    "strlen / wcslen are contract models (result indexes a NUL inside the live object, no NUL before it for a ghost index); strings of size 0 that own storage are included in every family 'with storage'",
+    "append / append_ch / append_str(_n) / insert_str / set_str / find / compare wrappers and find_ch / find_str have no unbounded contract of their own; they are covered by the bounded group"],
    [])
 
 NOT_APPLICABLE = {
@@ -225,17 +230,17 @@ NOT_APPLICABLE = {
 
 BTECH = "contract-based verification with CBMC 6.11: the representation invariant and abstract view asserted around the real operations on concretely enumerated small structures (bounded, --unwinding-assertions), DFCC step contracts where built"
 TEXT = {
-    'C10': ("Unbounded contracts on the string primitives every edit goes through (length clamping for every count, exact growth or abort, NUL termination, prefix/suffix preservation by ghost indices, all memmove/memcpy ranges inside the storage for every length) for both character widths, plus a bounded reference-string comparison of whole edit sequences including the SIZE_MAX counts and the C-library agreement of find/compare.", "contract-based verification with CBMC 6.11: DFCC function contracts on _string.c with vector.c inlined; bounded reference-string checks"),
+    'C10': ("Unbounded contracts on the string primitives every edit goes through and, built on them modularly, on insert_str_n / insert_ch / insert / resize / substr (length clamping for every count, exact growth or abort, NUL termination, prefix/suffix preservation by ghost indices, all memmove/memcpy ranges inside the storage for every length) for both character widths, plus a bounded reference-string comparison of whole edit sequences including the SIZE_MAX counts and the C-library agreement of find/compare.", "contract-based verification with CBMC 6.11: DFCC function contracts on _string.c with vector.c inlined; bounded reference-string checks"),
     'C03': ("Array level proved for every table size (sweep invariant with a ghost bucket index, all accesses in bounds, completion only after the last old bucket); element level bounded: after every operation of every scenario in scope each live element is found by key, erased ones are not, same-key elements are offered at most once, size matches, every node sits in a bucket allowed by the old or pending geometry.", BTECH + "; DFCC function + loop contracts for the bucket array"),
     'C04': ("Bucket coverage of foreach/foreach_const/clear proved for every table state incl. pending grow/shrink; per-element exactly-once, early stop, erasing callback and reuse after clear are bounded over ten table states.", BTECH + "; DFCC function + loop contracts for the bucket walk"),
-    'C08': ("Bounded: a reference model (present / stored key / stored value per key) is compared with the map after every operation of every script in scope, including duplicate inserts through a different key pointer, erase by iterator, clear with leak / double-free / write-after-free audit.", BTECH),
+    'C08': ("Proved for every key and map size: the map's own logic (one entry per key, stored pointers never replaced, iterator results, -1 on allocation failure with nothing changed, erase releases exactly the removed node, the user's comparison gets the user's private pointer) against assumed per-key contracts of the tree. Bounded: a reference model (present / stored key / stored value per key) is compared with the map after every operation of every script in scope, including duplicate inserts through a different key pointer, erase by iterator, clear with leak / double-free / write-after-free audit.", BTECH + '; DFCC function contracts on map.c with the tree functions replaced by (assumed) per-key contracts'),
     'C15': ("Bounded per container: the clear callback poisons (or frees) each element; the harness asserts exactly one call per contained element, none for anything else, no access afterwards (CBMC pointer checks / ASan in the native run), container equal to a fresh one and reusable.", BTECH),
     'C16': ("Every allocating operation is verified under CBMC's malloc-may-fail mode, where each allocation fails independently, so all failure subsets are covered by one proof per operation: documented failure behaviour, state unchanged, invariant intact, nothing freed twice or leaked (frees clauses, was_freed, leak audit in the closed scenario); map insert by scripted failures.", "contract-based deductive verification: CBMC 6.11 DFCC contracts under --malloc-may-fail; bounded scripted-allocator groups for the map"),
     'C07': ("cstl_fls and the heap's index arithmetic are proved for all inputs; the exchange step promote_child is proved on every neighbourhood; push/pop/get/clear are checked against a multiset model with completeness, heap order and back-links re-established by an independent walker after every operation on all heaps in the stated scope.", BTECH),
     'C13': ("Step contracts prove that insert_after/erase_after relink exactly the named nodes and move the tail pointer exactly when the last node is touched; bounded checks compare every list of length 0..5 with a reference sequence after every public operation and verify each time that push_back appends after the true last element.", BTECH),
     'C01': ("Bounded whole-operation contract checks: CBMC executes the real insert/find/erase/foreach/clear of bintree.c and rbtree.c on every tree in the stated scope and an independent walker re-establishes 'exactly the inserted-minus-erased elements, in order, each linked once, parent links consistent, size equal' after every operation; find/erase results are checked against the membership view; traversal bracket structure, order and early stop are checked at every visit index. Nothing is proved beyond the scope.", BTECH),
     'C02': ("Bounded: after every insert and erase on every red-black tree in scope the walker checks root black, no red-red, equal black height on all paths, back-links, and the 2*log2(n+1) height bound through the real cstl_rbtree_height. Nothing is proved beyond the scope.", BTECH),
-    'C11': ("Unbounded proofs for linear find, reverse and the index arithmetic of binary search (loop contracts, ghost index instead of quantifiers); bounded checks for the five sort selectors, binary search results and the vector wrappers on every small array over a 3-letter alphabet with byte-identity tags and canaries.", "contract-based verification with CBMC 6.11: DFCC function + loop contracts (find, reverse, search arithmetic); bounded contract checks for the sorts"),
+    'C11': ("Unbounded proofs for linear find, reverse, binary search (index arithmetic for arbitrary comparison outcomes, and the functional result on sorted arrays in zone form) by loop contracts with ghost indices instead of quantifiers; bounded checks for the five sort selectors, binary search results and the vector wrappers on every small array over a 3-letter alphabet with byte-identity tags and canaries.", "contract-based verification with CBMC 6.11: DFCC function + loop contracts (find, reverse, search arithmetic); bounded contract checks for the sorts"),
     'C12': ("Step contracts prove the ring primitives relink exactly the named nodes for every surrounding ring; bounded checks compare the ring with a reference sequence in both directions after every public operation on all lists of length 0..5.", BTECH),
     'C05': ("Per-operation contracts over symbolic reference counters (1 <= hard <= soft < 2^31): each operation changes (hard, soft) by exactly the change in the number of owners/references, the clear callback runs once on live memory and the memory is freed exactly at hard 1->0, the block exactly at soft 1->0 (frees clauses + was_freed), lock yields an owner iff hard >= 1, unique <=> soft == 1; plus a loop-free closed scenario with leak audit under every allocation-failure subset.",
             "contract-based deductive verification: CBMC 6.11 DFCC function contracts with frees clauses on memory.c, SAT back end"),
